@@ -145,7 +145,18 @@ def check_case(ctx, case):
         raw.__doc__ = "docstring of the original"
     via = case.get("via")
     passthrough = []
-    if via in ("wraps", "wraps-jaxtyped") and desc in ("function", "staticmethod") and kind != "async":
+    if via == "wraps-option" and desc in ("function", "staticmethod") and kind != "async" and not any(p["kind"] == "vk" for p in params):
+        # a functools.wraps decorator that takes an option of its own: the decorated callable's signature (inspect follows
+        # __wrapped__) is the annotated one, the callable itself accepts one keyword more
+        import functools
+
+        inner = raw
+
+        @functools.wraps(inner)
+        def raw(*a, vf_option=None, **k):
+            passthrough.append((a, k))
+            return inner(*a, **k)
+    elif via in ("wraps", "wraps-jaxtyped") and desc in ("function", "staticmethod") and kind != "async":
         # the decorated callable is a functools.wraps pass-through around the generated function: it sees exactly the
         # (args, kwargs) it is called with -- which must be the caller's, not a normalised form of them
         import functools
@@ -311,6 +322,14 @@ def check_case(ctx, case):
                     raise Violation("body-ran-ill-typed", case, f"body ran although {where}")
                 if passthrough:
                     raise Violation("body-ran-ill-typed", case, f"the decorated (functools.wraps pass-through) callable was entered although {where}")
+                if via == "wraps-option" and passthrough is not None and "vf_option" not in kwargs and desc in ("function", "staticmethod") and kind != "async" and not any(q["kind"] == "vk" for q in params):
+                    # the same ill-typed arguments plus the wrapper's own option: whichever error the caller gets, the body does not run
+                    st2, val2 = drive(kind, f, list(args), dict(kwargs, vf_option=2))
+                    n_calls += 1
+                    if rec.calls or passthrough:
+                        raise Violation("body-ran-ill-typed", case, f"body ran although (with the wrapper's own keyword vf_option=2 added) {where}")
+                    if not (st2 == "raise" and isinstance(val2, TypeError)):
+                        raise Violation("ill-typed-not-rejected", case, f"got {st2} {val2!r} (with the wrapper's own keyword vf_option=2 added) {where}")
                 if not (st_ == "raise" and isinstance(val, TypeCheckError)):
                     raise Violation("ill-typed-not-rejected", case, f"got {st_} {val!r} {where}")
         # ---- non-binding calls
@@ -387,7 +406,7 @@ def c07_case(draw):
         "postponed": draw(st.sampled_from([False, True])),  # evaluated annotation objects / 'from __future__ import annotations'
         "body_exc": draw(st.sampled_from(["ValueError", "RecursionError", "ValueError", "MemoryError", "LookupError", "FrozenError"])),
         "lambda_annotations": draw(st.sampled_from([True, False])),
-        "via": draw(st.sampled_from([None, "wraps", None, "asyncwrap", "wraps-jaxtyped", None])),
+        "via": draw(st.sampled_from([None, "wraps", None, "asyncwrap", "wraps-jaxtyped", None, "wraps-option"])),
     }
     return case
 
